@@ -1,14 +1,20 @@
 import TracklibVerif.Lemmas.DTWTable
 import TracklibVerif.Lemmas.FDTW
+import TracklibVerif.Lemmas.DTWFront
 import Mathlib.Algebra.Order.Field.Basic
 import Mathlib.Tactic.Ring
 import Mathlib.Algebra.Order.Ring.Rat
 /-! # C18 — time-warping cost is the optimal coupling cost and the matching realises it
 
-Property theorems only (helpers: `Lemmas/DTW.lean`, `Lemmas/DTWTable.lean`). They are about the executable
-model `TV.DTW.dtw` / `TV.DTW.matchTracks` of `Model/DTWTable.lean` — the table form that the driver runs and the
-correspondence check compares with `tracklib.algo.comparison.match` — for **all** pairs of non-empty tracks,
-all dimensions, and every accumulation `w` that is monotone in the accumulated cost (`A + B**p` and `max(A, B)` are).
+Property theorems only (helpers: `Lemmas/DTW.lean`, `Lemmas/DTWTable.lean`, `Lemmas/FDTW.lean`, `Lemmas/DTWFront.lean`). They are
+about the executable model of `Model/DTWTable.lean` — the table form that the driver runs and the correspondence check
+compares with `tracklib.algo.comparison.match` / `compare` — for **all** pairs of non-empty tracks, all dimensions, and
+every accumulation `w` that is monotone in the accumulated cost (`A + B**p` and `max(A, B)` are).
+
+Layers: `dtw` / `fdtw` (the two algorithms, any accumulation) — sections `generic`, `links`; `_p2weight` and the front ends
+`matchCall` / `compareCall` as they are called (mode constant, `p` as type name + value, a track1 that may carry the
+features of an earlier matching) — sections `forms`, `session`, `cmpgen`; `matchTracks` / `compareTracks` (the same calls on
+tracks without features, `p` a Python number) over an ordered field — section `field`.
 
 Vocabulary: `S` is the list built by the backward step of `_dtw` (last pair first); `BackPath S` says that `S` is a
 monotone coupling with unit steps that ends at `(0,0)`; `costBack w 0 D S` is its accumulated cost
@@ -116,15 +122,322 @@ theorem fdtw_path (sqrt : α → α) (big : α) (w : α → α → α) (dim : Na
 
 end generic
 
+/-! ### `_p2weight`: how `p` is recognised -/
+section forms
+variable {α : Type} [Add α] [Sub α] [Mul α] [Div α] [LinearOrder α] [OfNat α 0] [OfNat α 1]
+
+omit [Sub α] [Div α] in
+/-- `_p2weight(p)` for a number whose type name contains `int` or `float` — Python `int` and `float`, `numpy.int8/16/32/64`,
+`numpy.uint8/16/32/64`, `numpy.float16/32/64` — is the accumulation of the *value* of `p`: `A + B**k` for `p == k`
+(`k = 1, 2, 3, …`), `A + (B != 0)*1` for `p == 0`, `max(A, B)` for `p == inf`. -/
+theorem p2weight_number (p : PArg) (v : PNorm) (hf : p.isFn = false) (hn : p.isNum = true) (hv : p.val = some v) :
+    p2weight (α := α) p = .ok (weight v) := p2weight_numeric p v hf hn hv
+
+omit [Sub α] [Div α] in
+/-- an infinite `p` (`float('inf')`, `math.inf`, `numpy.inf`, `numpy.float16/32/64('inf')`, `numpy.longdouble('inf')`) gives
+`max(A, B)` whatever its type: the test `p == float('inf')` comes last -/
+theorem p2weight_infinite (p : PArg) (hv : p.val = some .inf) : p2weight (α := α) p = .ok (weight .inf) := p2weight_inf p hv
+
+omit [Sub α] [Div α] in
+/-- a number other than 0 and infinity whose type name contains none of `int`, `float`, `function` (`numpy.longdouble(2)`,
+`numpy.longlong(2)`, `numpy.ulonglong(2)`, `True`, `Fraction(2)`) binds nothing: `return weight` raises UnboundLocalError -/
+theorem p2weight_unrecognised (p : PArg) (hf : p.isFn = false) (hn : p.isNum = false) (h0 : p.val ≠ some (.nat 0))
+    (hi : p.val ≠ some .inf) : p2weight (α := α) p = .error "err:UnboundLocalError" := p2weight_unbound p hf hn h0 hi
+
+/-- the type names, as `str(type(p))` prints them (blanks removed), that `_p2weight` takes for numbers … -/
+example : ∀ ty ∈ ["<class'int'>", "<class'float'>", "<class'numpy.int8'>", "<class'numpy.int16'>", "<class'numpy.int32'>",
+    "<class'numpy.int64'>", "<class'numpy.uint8'>", "<class'numpy.uint16'>", "<class'numpy.uint32'>", "<class'numpy.uint64'>",
+    "<class'numpy.float16'>", "<class'numpy.float32'>", "<class'numpy.float64'>"],
+    PArg.isNum { tyname := ty, val := none } = true ∧ PArg.isFn { tyname := ty, val := none } = false := by decide
+/-- … and those it does not -/
+example : ∀ ty ∈ ["<class'numpy.longdouble'>", "<class'numpy.longlong'>", "<class'numpy.ulonglong'>", "<class'bool'>",
+    "<class'numpy.bool'>", "<class'fractions.Fraction'>", "<class'str'>"],
+    PArg.isNum { tyname := ty, val := none } = false ∧ PArg.isFn { tyname := ty, val := none } = false := by decide
+example : PArg.isFn { tyname := "<class'function'>", val := none } = true ∧
+    PArg.isFn { tyname := "<class'builtin_function_or_method'>", val := none } = true ∧
+    PArg.isNum { tyname := "<class'function'>", val := none } = false ∧
+    PArg.isNum { tyname := "<class'builtin_function_or_method'>", val := none } = false := by decide
+
+/-! ### the front end `match`: constants, forms of `p`, histories -/
+
+omit [Div α] in
+/-- **every numeric form of `p` is the same call**: `match(track1, track2, mode, p, dim)` with the constant of the mode
+(`MODE_MATCHING_DTW = 2`, `FDTW = 3`, `FRECHET = 4`) and `p` a number of value `v` in any recognised type is the call that
+`match_correct` / `match_fdtw_correct` are about -/
+theorem match_any_form (sqrt : α → α) (big : α) (mode : Mode) (p : PArg) (v : PNorm)
+    (hf : p.isFn = false) (hn : p.isNum = true) (hv : p.val = some v) (dim : Nat) (t1 t2 : List (Pt α)) :
+    matchCall sqrt big mode.code p dim (TrackObj.fresh t1) t2 = matchTracks sqrt big mode v dim t1 t2 := by
+  unfold matchTracks matchCall warpOn
+  rw [p2weight_numeric p v hf hn hv, p2weight_ofNorm]
+
+omit [Div α] in
+/-- a callable `p` that computes the accumulation of `v` (`lambda A, B: A + B**2`, `lambda A, B: max(A, B)`, the builtin `max`)
+is the same call as the number `v` -/
+theorem match_callable_form (sqrt : α → α) (big : α) (mode : Mode) (p : PArg) (v : PNorm)
+    (hf : p.isFn = true) (hn : p.isNum = false) (hw : p.fnw = some v) (hv : p.val = none) (dim : Nat) (t1 t2 : List (Pt α)) :
+    matchCall sqrt big mode.code p dim (TrackObj.fresh t1) t2 = matchTracks sqrt big mode v dim t1 t2 := by
+  unfold matchTracks matchCall warpOn
+  rw [p2weight_callable p v hf hn hw hv, p2weight_ofNorm]
+
+omit [Div α] in
+/-- any other constant (for instance one of the `MODE_COMPARISON_*`) is refused -/
+theorem match_unknown_mode (sqrt : α → α) (big : α) (mode : Nat) (h : mode ≠ 1 ∧ mode ≠ 2 ∧ mode ≠ 3 ∧ mode ≠ 4)
+    (p : PArg) (dim : Nat) (a : TrackObj α) (t2 : List (Pt α)) :
+    matchCall sqrt big mode p dim a t2 = .error "err:UnknownModeError" := by
+  unfold matchCall
+  simp [h.1, h.2.1, h.2.2.1, h.2.2.2]
+
+omit [Div α] in
+/-- **a matched track matched again** (modes DTW, FRECHET): `match(m, track2, …)` where `m` carries the feature rows `rows0`
+of an earlier matching (or features the user created under the names `diff`, `pair`, `ex`, `ey`) returns exactly
+`match(track1, track2, …)` on the same positions without features -/
+theorem match_history_irrelevant (sqrt : α → α) (big : α) (mode : Mode) (hm : mode ≠ Mode.fdtw) (p : PNorm) (dim : Nat)
+    (t1 t2 : List (Pt α)) (h1 : 0 < t1.length) (h2 : 0 < t2.length) (rows0 : List (Row α)) (hl : rows0.length = t1.length) :
+    matchCall sqrt big mode.code (PArg.ofNorm p) dim { pts := t1, rows := rows0 } t2 = matchTracks sqrt big mode p dim t1 t2 := by
+  have : mode.code ≠ 3 := by cases mode <;> simp [Mode.code] at hm ⊢
+  exact matchCall_history sqrt big mode.code this _ dim t1 t2 rows0 hl h1 h2
+
+
+end forms
+
+/-! ### sessions of calls on shared objects -/
+section session
+variable {α : Type} [Add α] [Sub α] [Mul α] [Div α] [LinearOrder α] [OfNat α 0] [OfNat α 1]
+
+/-- the session `runSeq` with every call made on copies *without* features of the tracks involved: only the positions
+of the objects are kept (`none` = a call that returned no track) -/
+def runFresh (sqrt : α → α) (root : Nat → α → α) (ofNat : Nat → α) (big : α) :
+    List (Option (List (Pt α))) → List Step → List (Res α)
+  | _, [] => []
+  | geo, st :: rest =>
+    match (geo[st.a]?).join, (geo[st.b]?).join with
+    | some ta, some tb =>
+      if st.front then
+        match matchCall sqrt big st.mode st.p st.dim (TrackObj.fresh ta) tb with
+        | .ok o => .matched o :: runFresh sqrt root ofNat big (geo ++ [some ta]) rest
+        | .error e => .err e :: runFresh sqrt root ofNat big (geo ++ [none]) rest
+      else
+        (match compareCall sqrt root ofNat big st.mode st.p st.dim (TrackObj.fresh ta) tb with
+          | .ok v => .value v
+          | .error e => .err e) :: runFresh sqrt root ofNat big (geo ++ [none]) rest
+    | _, _ => .err "bad-ref" :: runFresh sqrt root ofNat big (geo ++ [none]) rest
+
+/-- every object of the session is a non-empty track with one feature row per observation -/
+def WFEnv (env : List (Option (TrackObj α))) : Prop :=
+  ∀ obj, some obj ∈ env → obj.rows.length = obj.pts.length ∧ 0 < obj.pts.length
+
+/-- **histories are irrelevant** (sessions in the modes DTW and FRECHET, `match` and `compare`, any form of `p`, any
+constants): in a session of calls on shared objects — tracks, and tracks returned by earlier `match` calls, which carry the
+`diff`/`pair`/`ex`/`ey` features of that matching, used again as first or second argument — every call returns what it
+returns on copies of the same positions that never went through `match`. In particular `match(match(t1, t2), t3)` returns
+`match(t1, t3)`: no link of the earlier matching survives, `nb_links` counts the new links only. (The FDTW modes 3 / 107
+are excluded here because their coupling is valid only under the hypotheses of `match_fdtw_correct`; `match_fdtw_history`
+is the single-call statement for them.) -/
+theorem session_history_irrelevant (sqrt : α → α) (root : Nat → α → α) (ofNat : Nat → α) (big : α) :
+    ∀ (steps : List Step) (env : List (Option (TrackObj α))), WFEnv env →
+      (∀ st ∈ steps, st.mode ≠ 3 ∧ st.mode ≠ 107) →
+      runSeq sqrt root ofNat big env steps
+        = runFresh sqrt root ofNat big (env.map (Option.map TrackObj.pts)) steps
+  | [], env, _, _ => by simp [runSeq, runFresh]
+  | st :: rest, env, hwf, hm => by
+    have hst := hm st List.mem_cons_self
+    have hrest : ∀ s ∈ rest, s.mode ≠ 3 ∧ s.mode ≠ 107 := fun s hs => hm s (List.mem_cons_of_mem _ hs)
+    have hget : ∀ k : Nat, ((env.map (Option.map TrackObj.pts))[k]?).join = ((env[k]?).join).map TrackObj.pts := by
+      intro k
+      rw [List.getElem?_map]
+      cases env[k]? with
+      | none => rfl
+      | some o => cases o <;> rfl
+    have hmem : ∀ (k : Nat) (obj : TrackObj α), (env[k]?).join = some obj → some obj ∈ env := by
+      intro k obj h
+      cases hk : env[k]? with
+      | none => rw [hk] at h; cases h
+      | some o =>
+        rw [hk] at h
+        simp only [Option.join] at h
+        subst h
+        exact List.mem_of_getElem? hk
+    have hnone : WFEnv (env ++ [none]) := by
+      intro obj ho
+      rcases List.mem_append.mp ho with h | h
+      · exact hwf obj h
+      · simp at h
+    have hmapnone : (env ++ [none]).map (Option.map TrackObj.pts) = env.map (Option.map TrackObj.pts) ++ [none] := by simp
+    rw [runSeq, runFresh, hget, hget]
+    cases ha : (env[st.a]?).join with
+    | none =>
+      simp only [Option.map_none]
+      rw [session_history_irrelevant sqrt root ofNat big rest _ hnone hrest, hmapnone]
+    | some a =>
+      cases hb : (env[st.b]?).join with
+      | none =>
+        simp only [Option.map_none, Option.map_some]
+        rw [session_history_irrelevant sqrt root ofNat big rest _ hnone hrest, hmapnone]
+      | some b =>
+        have hwa := hwf a (hmem _ _ ha)
+        have hwb := hwf b (hmem _ _ hb)
+        simp only [Option.map_some]
+        by_cases hf : st.front = true
+        · simp only [hf, if_true]
+          have hh : matchCall sqrt big st.mode st.p st.dim a b.pts
+              = matchCall sqrt big st.mode st.p st.dim (TrackObj.fresh a.pts) b.pts :=
+            matchCall_history sqrt big st.mode hst.1 st.p st.dim a.pts b.pts a.rows hwa.1 hwa.2 hwb.2
+          rw [hh]
+          cases hr : matchCall sqrt big st.mode st.p st.dim (TrackObj.fresh a.pts) b.pts with
+          | error e =>
+            simp only
+            rw [session_history_irrelevant sqrt root ofNat big rest _ hnone hrest, hmapnone]
+          | ok o =>
+            simp only
+            have hlen := matchCall_rows_length sqrt big st.mode hst.1 st.p st.dim a.pts b.pts hwa.2 hwb.2 o hr
+            have hwf' : WFEnv (env ++ [some { pts := a.pts, rows := o.rows }]) := by
+              intro obj ho
+              rcases List.mem_append.mp ho with h | h
+              · exact hwf obj h
+              · simp only [List.mem_singleton, Option.some.injEq] at h
+                subst h
+                exact ⟨hlen, hwa.2⟩
+            rw [session_history_irrelevant sqrt root ofNat big rest _ hwf' hrest]
+            simp
+        · simp only [hf, if_false, Bool.false_eq_true]
+          have hh : compareCall sqrt root ofNat big st.mode st.p st.dim a b.pts
+              = compareCall sqrt root ofNat big st.mode st.p st.dim (TrackObj.fresh a.pts) b.pts :=
+            compareCall_history sqrt root ofNat big st.mode hst.2 st.p st.dim a.pts b.pts a.rows hwa.1 hwa.2 hwb.2
+          rw [hh, session_history_irrelevant sqrt root ofNat big rest _ hnone hrest, hmapnone]
+          rfl
+
+end session
+
+/-! ### the front end `compare` -/
+section cmpgen
+variable {α : Type} [Add α] [Sub α] [Mul α] [Div α] [LinearOrder α] [OfNat α 0] [OfNat α 1]
+
+/-- what `compare` makes of the matching `o`: the score for FRECHET, `p = inf` and `p = 0`, `(score/nb_links)**(1/p)` otherwise -/
+def cmpValue (root : Nat → α → α) (ofNat : Nat → α) (mode : Mode) (p : PNorm) (o : Out α) : α :=
+  match (if mode = Mode.frechet then PNorm.inf else p) with
+  | .inf => o.score
+  | .nat 0 => o.score
+  | .nat (k+1) => root (k+1) (o.score / ofNat o.nbLinks)
+
+/-- `compare(track1, track2, mode, p, dim)` in the modes DTW / FDTW / FRECHET is `match` followed by `cmpValue`: errors are
+those of `match` -/
+theorem compare_value (sqrt : α → α) (root : Nat → α → α) (ofNat : Nat → α) (big : α) (mode : Mode) (p : PNorm) (dim : Nat)
+    (t1 t2 : List (Pt α)) :
+    compareTracks sqrt root ofNat big mode p dim t1 t2 =
+      match matchTracks sqrt big mode p dim t1 t2 with
+      | .ok o => .ok (cmpValue root ofNat mode p o)
+      | .error e => .error e := by
+  have hfn : ∀ q : PNorm, (PArg.ofNorm q).isFn = false := by
+    intro q
+    cases q with
+    | nat k => show hasSub "function".toList "<class'int'>".toList = false; decide
+    | inf => decide
+  unfold compareTracks compareCall warpCompare matchTracks matchCall cmpValue
+  cases mode with
+  | frechet =>
+    simp only [Mode.code, Mode.cmpCode]
+    cases warpOn sqrt big false PArg.pyInf dim (TrackObj.fresh t1) t2 with
+    | error e => rfl
+    | ok o => simp [bind, Except.bind, PArg.pyInf, pure, Except.pure]
+  | dtw =>
+    simp only [Mode.code, Mode.cmpCode]
+    cases warpOn sqrt big false (PArg.ofNorm p) dim (TrackObj.fresh t1) t2 with
+    | error e => rfl
+    | ok o =>
+      cases p with
+      | inf => simp [bind, Except.bind, PArg.ofNorm, pure, Except.pure]
+      | nat k =>
+        cases k with
+        | zero => simp [bind, Except.bind, PArg.ofNorm, pure, Except.pure]
+        | succ k =>
+          have hk : ({ tyname := "<class'int'>", val := some (PNorm.nat (k + 1)) } : PArg).isFn = false := hfn (.nat (k+1))
+          simp [bind, Except.bind, PArg.ofNorm, pure, Except.pure, hk]
+  | fdtw =>
+    simp only [Mode.code, Mode.cmpCode]
+    cases warpOn sqrt big true (PArg.ofNorm p) dim (TrackObj.fresh t1) t2 with
+    | error e => rfl
+    | ok o =>
+      cases p with
+      | inf => simp [bind, Except.bind, PArg.ofNorm, pure, Except.pure]
+      | nat k =>
+        cases k with
+        | zero => simp [bind, Except.bind, PArg.ofNorm, pure, Except.pure]
+        | succ k => simp [bind, Except.bind, PArg.ofNorm, pure, Except.pure]
+end cmpgen
+
+/-! ### what a user reads from the returned track -/
+section links
+variable {α : Type} [Add α] [Sub α] [Mul α] [Div α] [LinearOrder α] [OfNat α 0]
+
+omit [Div α] in
+/-- **the links, read back**: reading the `pair` lists of the track that `_dtw` returns, observation by observation
+(`[(i, j) for j, l in enumerate(pairs) for i in l]`), gives exactly the coupling `S` of `path_valid` / `path_realises`, first
+pair first — same pairs, same order, same multiplicity; hence the number of stored links is `nb_links` -/
+theorem links_read_back (sqrt : α → α) (w : α → α → α) (dim : Nat)
+    (t1 t2 : List (Pt α)) (h1 : 0 < t1.length) (h2 : 0 < t2.length) :
+    ∃ out, dtw sqrt w dim t1 t2 = some out ∧ readBack out.rows = out.S.reverse ∧ (readBack out.rows).length = out.nbLinks := by
+  obtain ⟨rows, he, hl, hp⟩ := dtw_spec sqrt w dim t1 t2 h1 h2
+  have hbp := walkF_backPath w 0 (Dmat sqrt dim t1 t2) (t1.length + t2.length) (t2.length - 1) (t1.length - 1) (by omega)
+  have hhd := walkF_head w 0 (Dmat sqrt dim t1 t2) (t1.length + t2.length) (t2.length - 1, t1.length - 1)
+  have hrb := readBack_eq _ t1.length t2.length rows hbp hhd h1 hl hp
+  exact ⟨_, he, hrb, by rw [hrb]; simp⟩
+
+omit [Div α] in
+/-- the same for the fast variant, under the hypotheses of `fdtw_equal` -/
+theorem fdtw_links_read_back (sqrt : α → α) (big : α) (w : α → α → α) (dim : Nat) (t1 t2 : List (Pt α))
+    (h1 : 0 < t1.length) (h2 : 0 < t2.length)
+    (hw : ∀ a b d, a ≤ b → w a d ≤ w b d)
+    (hinf : ∀ a i j, i < t2.length → j < t1.length → a ≤ w a (Dmat sqrt dim t1 t2 i j))
+    (hbig : ∀ i j i' j', i < t2.length → j < t1.length → i' < t2.length → j' < t1.length →
+      w (T w 0 (Dmat sqrt dim t1 t2) i j) (Dmat sqrt dim t1 t2 i' j') < big) :
+    ∃ out, fdtw sqrt big w dim t1 t2 = some out ∧ readBack out.rows = out.S.reverse ∧
+      (readBack out.rows).length = out.nbLinks := by
+  obtain ⟨S, rows, he, hbp, hhd, _, hl, hp⟩ := fdtw_spec sqrt big w dim t1 t2 h1 h2 hw hinf hbig
+  have hrb := readBack_eq S t1.length t2.length rows hbp hhd h1 hl hp
+  exact ⟨_, he, hrb, by rw [hrb]; simp⟩
+
+end links
+
+section features
+variable {α : Type} [Add α] [Sub α] [Mul α] [Div α] [LinearOrder α] [OfNat α 0]
+
+omit [Div α] in
+/-- **`diff`, `ex`, `ey`, read back**: on the track that `_dtw` returns, observation `j` of track1 — whose partners, in coupling
+order, are `partners S.reverse j`, the last of them being `i` — holds exactly that list in `pair`, and in `diff`, `ex`, `ey` the
+distance and the coordinate differences to that **last** partner `track2[i]` (`rowFor`); nothing of an earlier state -/
+theorem features_read_back (sqrt : α → α) (w : α → α → α) (dim : Nat) (t1 t2 : List (Pt α))
+    (h1 : 0 < t1.length) (h2 : 0 < t2.length) :
+    ∃ out, dtw sqrt w dim t1 t2 = some out ∧
+      ∀ j i, j < t1.length → (partners out.S.reverse j).getLast? = some i →
+        out.rows[j]? = some (rowFor sqrt dim t1 t2 j i (partners out.S.reverse j)) := by
+  have hbp := walkF_backPath w 0 (Dmat sqrt dim t1 t2) (t1.length + t2.length) (t2.length - 1) (t1.length - 1) (by omega)
+  have hhd := walkF_head w 0 (Dmat sqrt dim t1 t2) (t1.length + t2.length) (t2.length - 1, t1.length - 1)
+  have hb := backPath_bounds _ _ _ hbp hhd
+  have he : dtw sqrt w dim t1 t2 = some (Out.mk (T w 0 (Dmat sqrt dim t1 t2) (t2.length - 1) (t1.length - 1))
+      (walkF w 0 (Dmat sqrt dim t1 t2) (t1.length + t2.length) (t2.length - 1, t1.length - 1))
+      ((t1.map (fun _ => ({} : Row α))).mapIdx (fun j r =>
+        (walkF w 0 (Dmat sqrt dim t1 t2) (t1.length + t2.length) (t2.length - 1, t1.length - 1)).reverse.foldl
+          (stepRow sqrt dim t1 t2 j) r))
+      (walkF w 0 (Dmat sqrt dim t1 t2) (t1.length + t2.length) (t2.length - 1, t1.length - 1)).length) := by
+    unfold dtw dtwOn
+    rw [distCols_eq, dtwCore_spec w 0 _ _ _ h1 h2]
+    exact fillAF_rows sqrt dim t1 t2 _ _ (fun s hs => by have := hb s hs; omega)
+  refine ⟨_, he, ?_⟩
+  · intro j i hj hlast
+    simp only [List.getElem?_mapIdx, List.getElem?_map, List.getElem?_eq_getElem hj, Option.map_some]
+    rw [foldl_stepRow_last, hlast]
+    simp
+
+end features
+
 /-! ### the public entry point `match`, over an ordered field (`ℚ`, `ℝ`) -/
 section field
 variable {α : Type} [Field α] [LinearOrder α] [IsStrictOrderedRing α]
 
-/-- `_p2weight(p)` is monotone in the accumulated cost for `p = 1, 2, inf` -/
+/-- `_p2weight(p)` is monotone in the accumulated cost for every `p = 0, 1, 2, 3, …, inf` -/
 theorem weight_mono (p : PNorm) (a b d : α) (h : a ≤ b) : weight p a d ≤ weight p b d := by
   cases p with
-  | one => exact add_le_add h le_rfl
-  | two => exact add_le_add h le_rfl
+  | nat k => cases k <;> exact add_le_add h le_rfl
   | inf =>
     simp only [weight, pmax]
     by_cases h1 : a < d <;> by_cases h2 : b < d <;> simp only [h1, h2, if_true, if_false]
@@ -161,7 +474,8 @@ theorem distance_symm (sqrt : α → α) (dim : Nat) (p q : Pt α) : distance sq
 def weightOf (mode : Mode) (p : PNorm) : α → α → α := weight (if mode = Mode.frechet then PNorm.inf else p)
 
 /-- **C18 for `match(track1, track2, mode = DTW | FRECHET, p, dim)`**, all at once, for every pair of non-empty tracks,
-`p ∈ {1, 2, inf}`, `dim ∈ {1, 2, 3}`: the call succeeds; the reported score is a lower bound of the accumulated cost
+`p ∈ {0, 1, 2, 3, …, inf}` (a Python number; every other recognised form of `p` is the same call: `match_any_form`),
+`dim ∈ {1, 2, 3}`: the call succeeds; the reported score is a lower bound of the accumulated cost
 (`Σ d^p`, or `max d` for `p = inf` / FRECHET) of every monotone unit-step coupling from the first to the last pair;
 the returned `S` is such a coupling and its accumulated cost **is** the score; `nb_links` is its length and the `pair`
 feature lists exactly its pairs, with no observation of either track left out; and `match(track2, track1)` reports
@@ -180,7 +494,7 @@ theorem match_correct (sqrt : α → α) (big : α) (mode : Mode) (hm : mode ≠
       matchTracks sqrt big mode p dim u v = .ok o := by
     intro u v hu o ho
     have hne : u.isEmpty = false := by cases u with | nil => simp at hu | cons _ _ => rfl
-    unfold matchTracks
+    rw [matchTracks_unfold]
     unfold weightOf at ho
     cases mode with
     | fdtw => exact absurd rfl hm
@@ -213,11 +527,24 @@ theorem distance_nonneg (sqrt : α → α) (hsqrt : ∀ x, 0 ≤ sqrt x) (dim : 
     · simp only [h2, if_true]; exact hsqrt _
     · simp only [h2, if_false]; exact hsqrt _
 
+/-- `B**k ≥ 0` for `B ≥ 0` -/
+theorem npow_nonneg (d : α) (hd : 0 ≤ d) : ∀ k, 0 ≤ npow d k
+  | 0 => zero_le_one
+  | 1 => hd
+  | k+2 => mul_nonneg (npow_nonneg d hd (k+1)) hd
+
 /-- `_p2weight(p)` is inflationary on non-negative distances -/
 theorem weight_infl (p : PNorm) (a d : α) (hd : 0 ≤ d) : a ≤ weight p a d := by
   cases p with
-  | one => exact le_add_of_nonneg_right hd
-  | two => exact le_add_of_nonneg_right (mul_self_nonneg d)
+  | nat k =>
+    cases k with
+    | zero =>
+      simp only [weight]
+      apply le_add_of_nonneg_right
+      split
+      · exact zero_le_one
+      · exact le_rfl
+    | succ k => exact le_add_of_nonneg_right (npow_nonneg d hd (k+1))
   | inf =>
     simp only [weight, pmax]
     by_cases h : a < d
@@ -225,7 +552,7 @@ theorem weight_infl (p : PNorm) (a d : α) (hd : 0 ≤ d) : a ≤ weight p a d :
     · simp only [h, if_false]; exact le_rfl
 
 /-- **C18 for the fast variant, `match(track1, track2, mode = FDTW, p, dim)`**: for every pair of non-empty tracks,
-`p ∈ {1, 2, inf}`, `dim ∈ {1, 2, 3}`, a non-negative `sqrt`, and `big` (1e300 in the code) above every candidate cost:
+`p ∈ {0, 1, 2, 3, …, inf}`, `dim ∈ {1, 2, 3}`, a non-negative `sqrt`, and `big` (1e300 in the code) above every candidate cost:
 the call succeeds and reports **the same score as `mode = DTW`**; the returned `S` is a monotone unit-step coupling
 from the first to the last pair whose accumulated cost is that score; `nb_links` and the `pair` feature describe it and
 no observation of either track is left out. -/
@@ -249,10 +576,83 @@ theorem match_fdtw_correct (sqrt : α → α) (hsqrt : ∀ x, 0 ≤ sqrt x) (big
   cases Option.some.inj e3
   have hne : t1.isEmpty = false := by cases t1 with | nil => simp at h1 | cons _ _ => rfl
   refine ⟨ofast, od, ?_, ?_, hs, hc, hcost, hnb, hr, hcov⟩
-  · unfold matchTracks; simp [hne, e2]
-  · unfold matchTracks; simp [hne, e1]
+  · rw [matchTracks_unfold]; simp [hne, e2]
+  · rw [matchTracks_unfold]; simp [hne, e1]
+
+/-- the same for the fast variant, under the hypotheses of `match_fdtw_correct` -/
+theorem match_fdtw_history (sqrt : α → α) (hsqrt : ∀ x, 0 ≤ sqrt x) (big : α) (p : PNorm) (dim : Nat)
+    (t1 t2 : List (Pt α)) (h1 : 0 < t1.length) (h2 : 0 < t2.length)
+    (hbig : ∀ i j i' j', i < t2.length → j < t1.length → i' < t2.length → j' < t1.length →
+      weight p (T (weight p) 0 (Dmat sqrt dim t1 t2) i j) (Dmat sqrt dim t1 t2 i' j') < big)
+    (rows0 : List (Row α)) (hl : rows0.length = t1.length) :
+    matchCall sqrt big 3 (PArg.ofNorm p) dim { pts := t1, rows := rows0 } t2 = matchTracks sqrt big Mode.fdtw p dim t1 t2 := by
+  obtain ⟨out, outd, e1, _, _, hc, _⟩ := match_fdtw_correct sqrt hsqrt big p dim t1 t2 h1 h2 hbig
+  have hne : t1.isEmpty = false := by cases t1 with | nil => simp at h1 | cons _ _ => rfl
+  have hfd : fdtw sqrt big (weight p) dim t1 t2 = some out := by
+    rw [matchTracks_unfold] at e1
+    simp only [hne, Bool.false_eq_true, if_false] at e1
+    cases hx : fdtw sqrt big (weight p) dim t1 t2 with
+    | none => rw [hx] at e1; cases e1
+    | some o => rw [hx] at e1; cases e1; rfl
+  rw [e1]
+  unfold matchCall warpOn
+  rw [p2weight_ofNorm]
+  simp [bind, Except.bind, hne, fdtwOn_of_fdtw sqrt big (weight p) dim rows0 t1 t2 hl h1 h2 out hfd hc.1 hc.2]
+
+
+/-- **`compare` in the modes DTW and FRECHET**, for every pair of non-empty tracks over an ordered field: the call succeeds and
+returns `cmpValue` of the matching that `match` returns, which is optimal (`match_correct`): for FRECHET / `p = inf` the value
+**is** the least, over all couplings, of the largest link (the discrete Fréchet distance); for a finite `p ≥ 1` it is
+`(score/nb_links)**(1/p)` with `score` the least `Σ d^p` over all couplings and `nb_links` the number of links of the returned
+optimal coupling, between `max(n1, n2)` and `n1 + n2 - 1` -/
+theorem compare_correct (sqrt : α → α) (root : Nat → α → α) (ofNat : Nat → α) (big : α) (mode : Mode)
+    (hm : mode ≠ Mode.fdtw) (p : PNorm) (dim : Nat) (t1 t2 : List (Pt α)) (h1 : 0 < t1.length) (h2 : 0 < t2.length) :
+    ∃ out, matchTracks sqrt big mode p dim t1 t2 = .ok out ∧
+      compareTracks sqrt root ofNat big mode p dim t1 t2 = .ok (cmpValue root ofNat mode p out) ∧
+      (∀ S, IsCouplingOf t1.length t2.length S → out.score ≤ costBack (weightOf mode p) 0 (Dmat sqrt dim t1 t2) S) ∧
+      IsCouplingOf t1.length t2.length out.S ∧
+      costBack (weightOf mode p) 0 (Dmat sqrt dim t1 t2) out.S = out.score ∧
+      out.nbLinks = out.S.length ∧
+      t1.length ≤ out.nbLinks ∧ t2.length ≤ out.nbLinks ∧ out.nbLinks + 1 ≤ t1.length + t2.length := by
+  obtain ⟨out, _, e, _, hlow, hc, hcost, hnb, _, _, _⟩ := match_correct sqrt big mode hm p dim t1 t2 h1 h2
+  have hlen := backPath_length out.S _ _ hc.1 hc.2
+  refine ⟨out, e, ?_, hlow, hc, hcost, hnb, by omega, by omega, by omega⟩
+  rw [compare_value, e]
+
+/-- accumulated costs are non-negative when `sqrt` is -/
+theorem costBack_nonneg (sqrt : α → α) (hsqrt : ∀ x, 0 ≤ sqrt x) (p : PNorm) (dim : Nat) (t1 t2 : List (Pt α)) :
+    ∀ S : List (Nat × Nat), 0 ≤ costBack (weight p) 0 (Dmat sqrt dim t1 t2) S
+  | [] => le_refl _
+  | _ :: rest =>
+    le_trans (costBack_nonneg sqrt hsqrt p dim t1 t2 rest)
+      (weight_infl p _ _ (distance_nonneg sqrt hsqrt dim _ _))
+
+/-- **`compare(DTW, p = k)` is the `k`-th root of the mean of `d^k` along the returned optimal coupling**: with exact
+arithmetic — `root k` a genuine `k`-th root on non-negative numbers, `ofNat` the cast — `compare(...)^k * nb_links` is the
+score, i.e. the least `Σ d^k` over all couplings. (Needs exact arithmetic: in floats `x**(1.0/k)` is rounded, and for
+`k = 3` as `numpy.float16/32` the exponent `1.0/p` itself is rounded to that precision.) -/
+theorem compare_mean_power (sqrt : α → α) (hsqrt : ∀ x, 0 ≤ sqrt x) (root : Nat → α → α) (big : α) (k : Nat)
+    (hroot : ∀ x : α, 0 ≤ x → npow (root (k+1) x) (k+1) = x) (dim : Nat)
+    (t1 t2 : List (Pt α)) (h1 : 0 < t1.length) (h2 : 0 < t2.length) :
+    ∃ out v, matchTracks sqrt big Mode.dtw (.nat (k+1)) dim t1 t2 = .ok out ∧
+      compareTracks sqrt root (fun n => (n : α)) big Mode.dtw (.nat (k+1)) dim t1 t2 = .ok v ∧
+      npow v (k+1) * (out.nbLinks : α) = out.score ∧
+      (∀ S, IsCouplingOf t1.length t2.length S → out.score ≤ costBack (weight (.nat (k+1))) 0 (Dmat sqrt dim t1 t2) S) := by
+  obtain ⟨out, e, ec, hlow, _, hcost, _, hn1, _, _⟩ :=
+    compare_correct sqrt root (fun n => (n : α)) big Mode.dtw (by decide) (.nat (k+1)) dim t1 t2 h1 h2
+  have hw : weightOf (α := α) Mode.dtw (.nat (k+1)) = weight (.nat (k+1)) := by unfold weightOf; simp
+  rw [hw] at hcost hlow
+  refine ⟨out, _, e, ec, ?_, hlow⟩
+  have hpos : (0 : α) < (out.nbLinks : α) := by exact_mod_cast (by omega : 0 < out.nbLinks)
+  have hs : 0 ≤ out.score := by rw [← hcost]; exact costBack_nonneg sqrt hsqrt _ dim t1 t2 _
+  have hv : cmpValue root (fun n => (n : α)) Mode.dtw (.nat (k+1)) out = root (k+1) (out.score / (out.nbLinks : α)) := by
+    unfold cmpValue; simp
+  rw [hv, hroot _ (div_nonneg hs (le_of_lt hpos))]
+  exact div_mul_cancel₀ _ (ne_of_gt hpos)
+
 
 end field
+
 
 /-! ### the hypotheses are satisfiable; a concrete run of the model (the D14 witness, in dimension 1) -/
 
@@ -265,10 +665,38 @@ example :
       (fun o => (o.score, o.S, o.rows.map (·.pair), o.nbLinks))
     = some (2, [(2, 2), (2, 1), (1, 0), (0, 0)], [[0, 1], [2], [2]], 4) := by decide
 
+/-- same run, `diff` read back: observation 0 has partners `[0, 1]` and holds the distance to the last one (`|0 - 0|`), observations
+1 and 2 have the single partner 2 (`|1 - 1|`, `|0 - 1|`), as `features_read_back` says -/
+example :
+    (dtw (α := Int) id (weight PNorm.one) 1 [⟨0, 0, 0⟩, ⟨0, 0, 1⟩, ⟨0, 0, 0⟩] [⟨0, 0, 1⟩, ⟨0, 0, 0⟩, ⟨0, 0, 1⟩]).map
+      (fun o => (o.rows.map (·.diff), readBack o.rows))
+    = some ([some 0, some 0, some 1], [(0, 0), (1, 0), (2, 1), (2, 2)]) := by decide
+
 /-- the fast variant on the same input (`big = 1000`): same score 2, a different optimal coupling. -/
 example :
     (fdtw (α := Int) id 1000 (weight PNorm.one) 1 [⟨0, 0, 0⟩, ⟨0, 0, 1⟩, ⟨0, 0, 0⟩] [⟨0, 0, 1⟩, ⟨0, 0, 0⟩, ⟨0, 0, 1⟩]).map
       (fun o => (o.score, o.rows.map (·.pair), o.nbLinks))
     = some (2, [[0], [0], [1, 2]], 4) := by decide +kernel
+
+/-- `p = numpy.int32(2)` satisfies the hypotheses of `p2weight_number` / `match_any_form` -/
+example : let p : PArg := { tyname := "<class'numpy.int32'>", val := some (.nat 2) }
+    p.isFn = false ∧ p.isNum = true ∧ p.val = some (.nat 2) := by decide
+
+/-- a session (altitudes, `dim = 1`): `m = match(t0, t1, DTW, p = numpy.int64(1))`, then `match(m, t2, FRECHET)` with the
+already matched track as first argument, where `t0` itself carried features under the same names: the second call returns
+the links of `t0` with `t2` only (`nb_links = 3`), as `session_history_irrelevant` says -/
+example :
+    (runSeq (α := Int) id (fun _ x => x) (fun n => (n : Int)) 1000
+      [some { pts := [⟨0, 0, 0⟩, ⟨0, 0, 1⟩], rows := [{ diff := some 5, pair := [9, 0] }, { diff := some 5, pair := [9, 1] }] },
+       some (TrackObj.fresh [⟨0, 0, 1⟩]), some (TrackObj.fresh [⟨0, 0, 2⟩, ⟨0, 0, 0⟩, ⟨0, 0, 3⟩])]
+      [{ front := true, mode := 2, p := { tyname := "<class'numpy.int64'>", val := some (.nat 1) }, dim := 1, a := 0, b := 1 },
+       { front := true, mode := 4, p := PArg.pyInt1, dim := 1, a := 3, b := 2 }]).map
+      (fun r => match r with
+        | .matched o => some (o.score, o.rows.map (·.pair), o.nbLinks)
+        | _ => none)
+    = [some (1, [[0], [0]], 2), some (2, [[0, 1], [2]], 3)] := by decide +kernel
+
+/-- the hypothesis of `compare_mean_power` is satisfiable: for `p = 1` the root is the identity -/
+example : ∀ x : ℚ, 0 ≤ x → npow ((fun (_ : Nat) (y : ℚ) => y) (0+1) x) (0+1) = x := fun _ _ => rfl
 
 end TV.C18
